@@ -173,7 +173,7 @@ UNITS += [
 M = "backend::decrypt::verif_kani::"
 # reading a pack's header back (repair index) must reject a pack whose size does not fit its header: the unit lives in C08's
 # spec and is verified as part of this check as well (a stored file that was lengthened or shortened is detected)
-SATELLITES = [("C08", ["BlobLocation", "IndexBlob", "PackerStats", "BasicPacker", "RawPacker", "packfile_constants", "PackHeader", "HeaderEntry", "header_entry_consts", "header_entry_consts2", "he_from_blob", "he_length", "he_into_location", "he_into_blob", "from_file"])]
+SATELLITES = [("C08", ["BlobLocation", "IndexBlob", "PackerStats", "BasicPacker", "RawPacker", "packfile_constants", "PackHeader", "HeaderEntry", "header_entry_consts", "header_entry_consts2", "he_from_blob", "he_length", "he_into_location", "he_into_blob", "from_file", "actor_pack_id"])]
 
 KANI = [
     Harness(M + "c04_hash_write_full_stores_ciphertext_under_its_hash", functions=["<backend::decrypt::DecryptBackend as DecryptWriteBackend>::hash_write_full", "backend::decrypt::DecryptBackend::{encrypt_file, very_file, decrypt_file}"], expect_stubs=2, timeout=900),
